@@ -22,7 +22,7 @@ func init() {
 			"oracle: Parse returns without panicking; the reference recognizer (maximal-munch lexer + Earley over the grammar of Numscript.g4) says valid => zero errors, invalid => >= 1 error; every error starts inside the text or at its end; ParseErrorsToString does not panic; " +
 			"non-trivial = the text is not a generator script as such (it was edited or is a soup); distinct = the text",
 		Assumptions: []string{"texts whose lexing depends on nested comment openers are not modelled by the reference lexer and are only checked for crashes and error positions", "the reference grammar is a transcription of Numscript.g4; its agreement with the generated parser on every explored text is itself part of what is checked"},
-		QuickBudget: 70 * time.Second,
+		QuickBudget: 240 * time.Second,
 		ThoroBudget: 12 * time.Minute,
 		UseJournal:  true,
 		Run:         runC14,
